@@ -22,7 +22,9 @@ THEOREMS = ["C38_char6_roundtrip",
             "C38_intern_ids_disjoint_classes",
             "C38_intern_no_panic_below_limit",
             "C38_intern_deadlock_free",
-            "C38_intern_terminates_weak_fairness"]
+            "C38_intern_terminates_weak_fairness",
+            "C38_bytes_entry_points_snapshot",
+            "C38_bytes_write_after_call_unobservable"]
 AXIOMS_OK = []
 TRUSTED = ["hand-written Gallina models of char6.go (encodeChar6/encodeOutlined/decodeChar6) and of intern.go (Query, Intern/internSlow, Value)",
            "correspondence harness (harness/cmd/intern) + verif hook internal/intern/verif_hooks.go exposing encodeChar6/decodeChar6 and the two tables"]
@@ -30,7 +32,7 @@ ASSUMPTIONS = [
     "sync.Map (Load, LoadOrStore, Store) and atomic.Int32 (Load, Store) are modelled by their sequentially consistent contracts: each call is one atomic step on a map string -> slot; the entry pointer of a key is allocated once by LoadOrStore and only ever replaced by the nil poison value",
     "syncx.Log.Append/Load (internal/ext/syncx/log.go, built from atomics and a Gosched spin; there is no mutex in this version) is modelled by its contract: Append is one linearizable step that appends and returns the previous length, or fails once 2^31-1 elements are present; Load(i) returns element i or panics when i is out of range. Its internals are only exercised (concurrent runs, -race in the thorough tier), not proved; the counter wrap after a further 2^31 failed appends is not modelled",
     "termination is proved under weak fairness of the Go scheduler: every goroutine that has a step to take is eventually scheduled (runtime.Gosched in the spin loop yields to the leader); without it a spinning goroutine could starve the leader on GOMAXPROCS=1 only if Gosched never switched",
-    "strings.Clone, the stats counters and InternBytes/QueryBytes aliasing are not modelled (they do not influence ids)",
+    "InternBytes/QueryBytes are modelled by snapshot semantics (Model/Intern.v run_bops: the table keeps the content the buffer had at call time, because internSlow clones before it builds the key and before it appends); that the code really behaves so is not proved but checked on every run: sequential histories where the caller overwrites its buffers in place between calls, and concurrent runs where every goroutine scribbles over its scratch buffer right after InternBytes returned. The stats counters are not modelled (they do not influence ids)",
     "goroutine schedules of the real runs are whatever the Go runtime produces (start barrier, optional Gosched between operations); the all-schedules claim is the Coq theorem, the concurrent runs only tie the model to the code",
 ]
 
@@ -261,6 +263,38 @@ def seq_part(ctx):
             else:
                 ops.append(["v", rng.choice([0, 1, 2, 3, got, got + 1, -1, -2, -54, -(1 << 30), -I32, -1 - rng.below(1 << 30), 9])])
         ins.append({"mode": "seq", "ops": ops})
+    # histories through the byte-slice entry points: the caller owns up to four buffers, fills one
+    # (in place, at some offset of a fixed backing array), calls InternBytes / QueryBytes on it and
+    # later overwrites it; in between, earlier strings are asked for again through every entry point
+    for _ in range(ctx.budget(400, 8000)):
+        pool = make_pool(rng, rng.range(1, 8))
+        if rng.chance(1, 2):      # same-length table strings: an overwritten buffer holds another pool member
+            n = rng.range(6, 12)
+            pool += [rand_alpha(rng, n) for _k in range(rng.range(1, 4))]
+        nb = rng.choice([1, 1, 2, 4])
+        ops, got = [], 0
+        for _k in range(rng.range(2, 20)):
+            r = rng.below(12)
+            b = rng.below(nb)
+            if r < 5:
+                ops.append(["w", b, rng.choice(pool).hex(), rng.choice([0, 0, 1, 3, 8])])
+                ops.append(["ib", b] if rng.chance(4, 5) else ["qb", b])
+                got += 1
+            elif r == 5:
+                ops.append(["ib", b] if rng.chance(1, 2) else ["qb", b])      # the same buffer again, unchanged
+            elif r == 6:
+                ops.append(["w", b, (rng.choice(pool) if rng.chance(1, 2) else rng.bytes(rng.range(0, 12))).hex(), rng.choice([0, 0, 2])])
+            elif r < 9:
+                ops.append(["i", rng.choice(pool).hex()])
+                got += 1
+            elif r < 11:
+                ops.append(["q", rng.choice(pool + [b"never-seen"]).hex()])
+            else:
+                ops.append(["v", rng.choice([1, 2, 3, got, got + 1, -2, 9])])
+        # afterwards every pool string is asked for once more, by Query and by Intern
+        tail = rng.shuffle(pool)[: rng.range(1, len(pool))]
+        ops += [["q", x.hex()] for x in tail] + [["i", x.hex()] for x in tail] + [["v", k] for k in range(1, min(got, 6) + 1)]
+        ins.append({"mode": "seq", "ops": ops, "bytes": True})
     outs = ctx.impl("intern", ins)
     terms, meta = [], []
     for i, o in zip(ins, outs):
@@ -270,10 +304,29 @@ def seq_part(ctx):
             continue
         cops, cobs = [], []
         by_s, by_id, interned = {}, {}, set()
-        for op, r in zip(i["ops"], o["res"]):
+        bufs = {}
+        use_b = bool(i.get("bytes"))
+        wrap = (lambda x: "BOp (%s)" % x) if use_b else (lambda x: x)
+        res = iter(o["res"])
+        for op in i["ops"]:
+            if op[0] == "w":
+                bufs[op[1] % 4] = bytes.fromhex(op[2])
+                cops.append("BWrite %d %s" % (op[1] % 4, coq_str(bytes.fromhex(op[2]))))
+                continue
+            r = next(res, None)
+            if r is None:
+                ctx.corr_break("intern:seq-short-result", i, o)
+                break
+            if op[0] in ("ib", "qb"):
+                # the property through the byte-slice entry point: the call is about the content the buffer has NOW
+                cops.append("%s %d" % ("BInternBytes" if op[0] == "ib" else "BQueryBytes", op[1] % 4))
+                op = ["i" if op[0] == "ib" else "q", bufs.get(op[1] % 4, b"").hex()]
+                wr = lambda x: None
+            else:
+                wr = lambda x: cops.append(wrap(x))
             if op[0] == "i":
                 s = bytes.fromhex(op[1])
-                cops.append("OIntern %s" % coq_str(s))
+                wr("OIntern %s" % coq_str(s))
                 cobs.append("RIntern %s" % coq_Z(r[0]))
                 # ---- direct oracle
                 rep = {"ops": i["ops"], "res": o["res"], "string": op[1]}
@@ -286,7 +339,7 @@ def seq_part(ctx):
                 interned.add(s)
             elif op[0] == "q":
                 s = bytes.fromhex(op[1])
-                cops.append("OQuery %s" % coq_str(s))
+                wr("OQuery %s" % coq_str(s))
                 cobs.append("RQuery %s %s" % (coq_Z(r[0]), coq_bool(r[1])))
                 rep = {"ops": i["ops"], "res": o["res"], "string": op[1]}
                 if r[1] and not (s in interned or spec_encodable(s)):
@@ -296,13 +349,13 @@ def seq_part(ctx):
                 if r[1] and s in by_s and by_s[s] != r[0]:
                     ctx.violation("query-id-differs-from-intern", "Query returns another id than Intern did", rep)
             else:
-                cops.append("OValue %s" % coq_Z(op[1]))
+                wr("OValue %s" % coq_Z(op[1]))
                 cobs.append("RValue %s" % ("None" if r[0] == "panic" else "(Some %s)" % coq_str(bytes.fromhex(r[0]))))
                 if op[1] in by_id and (r[0] == "panic" or bytes.fromhex(r[0]) != by_id[op[1]]):
                     ctx.violation("value-intern-roundtrip", "Value(Intern(s)) != s",
                                   {"ops": i["ops"], "res": o["res"], "id": op[1], "string": by_id[op[1]].hex()})
-        ctx.count(("s", repr(i["ops"])), len(by_s) > 0, "seq")
-        terms.append("CSeq %s %s" % (coq_list(cops, str), coq_list(cobs, str)))
+        ctx.count(("s", repr(i["ops"])), len(by_s) > 0, "seq-bytes" if use_b else "seq")
+        terms.append("%s %s %s" % ("CSeqB" if use_b else "CSeq", coq_list(cops, str), coq_list(cobs, str)))
         meta.append((i, o))
     ctx.sample(dict(ins[0], observed=outs[0]))
     return terms, meta
@@ -327,7 +380,7 @@ def conc_inputs(ctx, n):
             if rng.chance(1, 2):
                 p = p + p[: rng.below(len(p) + 1)]
             progs.append([s.hex() for s in p])
-        ins.append({"mode": "conc", "progs": progs, "yield": rng.chance(1, 2)})
+        ins.append({"mode": "conc", "progs": progs, "yield": rng.chance(1, 2), "bytes": rng.chance(1, 2)})
     return ins
 
 
@@ -427,8 +480,12 @@ def run(ctx):
     ctx.rule = ("char6: the empty string, all strings of length <= 2 over the 64 alphabet symbols + 3 foreign bytes, boundary lengths 3..7 "
                 "(random alphabet strings, a dot / a foreign byte at every position), hand-picked dot cases, all 256 single bytes, random strings "
                 "(len 0..12), and decode on boundary / random int32 ids; plus an implementation-side sweep of ALL 64^0+..+64^5 alphabet strings; "
-                "table: random op sequences (Intern/Query/Value) on one table run sequentially against the model's sequential schedule, and random "
-                "string multisets interned by 2..32 goroutines (same order / own order / random repeats): every run through the direct oracle, the first "
+                "table: random op sequences (Intern/Query/Value) on one table run sequentially against the model's sequential schedule; random histories "
+                "through InternBytes/QueryBytes on up to four caller-owned buffers that the caller overwrites in place between calls (same-length and "
+                "different-length contents, several offsets), followed by Query/Intern/Value of every earlier string, against the model's snapshot semantics "
+                "and the direct oracle; and random "
+                "string multisets interned by 2..32 goroutines (same order / own order / random repeats; in half of the runs through InternBytes on a "
+                "per-goroutine scratch buffer scribbled over after each call): every run through the direct oracle, the first "
                 "100 (quick) also checked against the model run in the observed commit order; distinct = distinct input string / id / op sequence / program set; non-trivial = non-empty string, at least one Intern, "
                 "more than one goroutine with at least one table string")
     ctx.exhaustive = True
